@@ -370,6 +370,22 @@ def replay_violation(P, native, v, scratch):
         ok, msg = miri_replay(cs, scratch)
         how.append(msg)
         confirmed = ok
+    if not confirmed and not is_mem:
+        # the observers added by the instrumentation are Weak handles and can themselves change the behaviour
+        # (e.g. "no Weak outside the group"): second attempt with the script exactly as the solver produced it
+        sc3, out3 = driver.run_path(P, cs, [], lf, False, set(v['oracles']), dict(v.get('opts') or {}, target=v['prop'], instrument=False))
+        mt = scr.normalise(sc3.trace)
+        if out3[0] in ('violation', 'ub') and len(mt) > 0:
+            for seed in [0, 1, 2, 3]:
+                try:
+                    res, rc, err = native.run([('replay', cs)], seed=seed, timeout=60)
+                except subprocess.TimeoutExpired:
+                    continue
+                nt = scr.normalise(res.get('replay', {}).get('trace', []))
+                if nt[:len(mt)] == mt:
+                    confirmed = True
+                    how.append('native seed %d (uninstrumented script): trace equals the model trace up to the violating observation' % seed)
+                    break
     if not confirmed and is_mem:
         ok, msg = miri_replay(cs, scratch)
         how.append(msg)
